@@ -1,9 +1,9 @@
 SPECIFICATION Spec
 CONSTANTS
   Clients <- MC2Clients
-  Reqs <- MC2ReqsB
+  Reqs <- MC2Reqs
   Bg = "none"
-  Pool <- NoPool
+  Pool <- MCPool1
   Handoff = TRUE
 INVARIANT RecvMutex
 INVARIANT CondMutex
